@@ -81,6 +81,43 @@ prop("C12", "proof",
      "vector unless the two values collide under the message hash or H_i = O. Rejection of earlier vectors rests on C02's binding (sweep). Correspondence: every intermediate "
      "signature of generated histories byte for byte.", "DESIGN.md §10 C12")
 
+prop("C13", "proof",
+     "Coq theorems over Z (model's modexp proved equal to b^e mod n): cl_sign_verify_complete -- every signature sign_multiattr returns verifies, for any number of attributes, "
+     "any bases coprime to N, any draws (premise: Euler's theorem for N, true for N = p q); e leaves the loop with exactly le bits and coprime to phi; shift_forgery_rejected "
+     "(m_i + k e is refused whatever v: F7, repaired by c3225ee) with the pinned tree's acceptance kept as a machine-checked finding; non-canonical v refused (F14, 222458b). "
+     "Tied to the code by integer-for-integer correspondence of sign / verify / disclose / codecs under the production RNG (draw kinds and bit lengths included) on a toy suite "
+     "and CL1024, and a sweep of every negative class the property lists. PARTIAL: 'other attribute vector / other bases / other key is rejected' rests on the strong RSA "
+     "assumption (sweep + correspondence only).", "DESIGN.md §10 C13", NOTE_CL)
+prop("C14", "proof",
+     "Proved: gating (blind_sign returns only when verify_proof returned true; a false proof is a panic = refusal), the unblinded signature is (e, r + r', v), completeness of the "
+     "two-secret sigma protocol carrying each hidden attribute and r. PARTIAL: completeness of the whole flow for every hidden set U (F6 repaired by 0fe18d8) and rejection of "
+     "mismatching / edited proofs are decided by correspondence (proofs equal integer for integer with logged draws; decisions equal on every mutated instance) + sweep over ALL "
+     "non-empty U for n <= 3 (thorough 5), with and without trusted commitment, update_signature, field edits. Known finding F9 (unused randomness leaves) reported, not hidden.",
+     "DESIGN.md §10 C14", NOTE_CL)
+prop("C15", "proof",
+     "Proved: an accepted proof has its range proof on e made for the sigma protocol's commitment Ce and passes the five-equation check; completeness of the per-attribute "
+     "two-secret protocol. PARTIAL: completeness of the whole proof for every subset U and rejection of mismatching statements / edited fields are decided by correspondence "
+     "(integer for integer, logged draws) + sweep over ALL U for n <= 3 (thorough 5). Known finding F9 (unused randomness leaves) reported.", "DESIGN.md §10 C15", NOTE_CL)
+prop("C16", "proof",
+     "Proved: what an accepted Boudot proof pins -- E' = E^(2^T) and the square proofs are about E_a_1 / E_b_1 themselves (F8 transplant, repaired by 291caf1). PARTIAL: "
+     "completeness for every interval / value (prover-verifier bound mismatch F11 repaired by ff66daa) and rejection of edited proofs / other bounds, bases, modulus are decided by "
+     "correspondence (proofs equal integer for integer, rejection loops included) + sweep (widths 1, 2, 3, 2^k, 2^256-1, endpoints, out-of-range provers, transplant forgeries "
+     "built in Python). Known finding F13 (prove panics for rmax <= 0) reported.", "DESIGN.md §10 C16", NOTE_CL)
+prop("C17", "proof",
+     "The property is VIOLATED by the code (finding F9): machine-checked on the faithful model -- the signature proof embeds Cv = {value, randomness} with value = v g_0^randomness "
+     "mod N for every run (spok_carries_opening_of_v), so v is recomputable by the recipient. The sweep runs the property's own attacker on the serialized proofs of the real code "
+     "(opening recomputation, dictionary test, v recovery) and reports the three known-finding classes; anything outside them is a violation.", "DESIGN.md §10 C17", NOTE_CL)
+prop("C18", "proof",
+     "Construction invariants proved for every sequence of draws: keygen returns N = p q, p <> q, p = 2p'+1, q = 2q'+1 passing the primality test, b and c squares mod N, > 1, "
+     "coprime to N (hence squares modulo both factors: qr_mod_factor); bases likewise; commitment-key bases are powers of h, > 1, coprime; public-key byte codec round trip. "
+     "PARTIAL: primality itself is GMP's (re-tested by an independent Miller-Rabin in the sweep), random_bits / rand_int ranges are observed. Correspondence: identical keys from "
+     "logged draws including the safe-prime search decisions.", "DESIGN.md §10 C18", NOTE_CL)
+prop("C19", "proof",
+     "Arithmetic theorems: (r + c x)/c = x + r/c; mask_ok: a k-bit blinding with k >= 321 and c < 2^256 keeps floor(s/c) at least 2^64 from the secret for EVERY draw; leak_old: the "
+     "pinned lengths leak (F10, repaired by d61047a). requests_tied: the random_bits arguments of sigma_protocols.rs, regenerated on every run, are the model's, and every one is "
+     ">= 321 bits for the three shipped suites (finite table). The draw-request correspondence checks the bit length of every logged draw against the model; the sweep runs the "
+     "property's attacker (every response / challenge / ordered pair of responses / secret) on real proofs.", "DESIGN.md §10 C19", NOTE_CL)
+
 WIP = "check not yet registered in this commit (machinery under construction; see DESIGN.md §10)"
 ALL = ["C%02d" % i for i in range(1, 20)]
 
